@@ -16,7 +16,7 @@ from abc import ABCMeta, abstractmethod
 import uuid
 
 from stix2.datastore.filters import Filter, FilterSet
-from stix2.utils import deduplicate
+from stix2.utils import deduplicate, timestamp_sort_key
 
 
 def make_id():
@@ -482,7 +482,7 @@ class CompositeDataSource(DataSource):
         # Search for latest version
         stix_obj = latest_ver = None
         for obj in all_data:
-            ver = obj.get("modified") or obj.get("created")
+            ver = timestamp_sort_key(obj.get("modified") or obj.get("created"))
 
             if stix_obj is None or ver is None or ver > latest_ver:
                 stix_obj = obj
